@@ -146,18 +146,81 @@ class Result(object):
 
 # --------------------------------------------------------------------------- history against the reference semantics
 
-def state_events(history):
-    """the state events of an execution history as the reference semantics logs them:
-    ["in", name, raw input] for `…StateEntered`, ["out", name, output] for `…StateExited` (Cause texts masked)"""
+def _mc(x):
+    """a Cause field of an event: any text is engine- or machine-made and masked; absent stays absent"""
+    return "<cause>" if isinstance(x, str) else x
+
+
+def _js(text):
+    try:
+        return mask_cause(json.loads(text))
+    except (TypeError, ValueError):
+        return ("unparseable", text)
+
+
+def history_events(history):
+    """an execution history in the form the reference semantics predicts it: [type, name-or-None, detail] per event,
+    with the detail fields that are compared (JSON texts parsed, Cause texts masked); the `…Aborted` events of cancelled
+    siblings are left out (which siblings were still pending is the schedule's)"""
     out = []
     for h in history or []:
         t = h.get("type", "")
+        d = next((v for k, v in h.items() if k.endswith("EventDetails") and isinstance(v, dict)), {})
+        if t.endswith("Aborted"):
+            continue
         if t.endswith("StateEntered"):
-            d = h.get("stateEnteredEventDetails") or {}
-            out.append(["in", d.get("name"), mask_cause(json.loads(d.get("input", "null")))])
+            out.append([t, d.get("name"), {"input": _js(d.get("input"))}])
         elif t.endswith("StateExited"):
-            d = h.get("stateExitedEventDetails") or {}
-            out.append(["out", d.get("name"), mask_cause(json.loads(d.get("output", "null")))])
+            out.append([t, d.get("name"), {"output": _js(d.get("output"))}])
+        elif t == "ExecutionStarted":
+            out.append([t, None, {"input": _js(d.get("input"))}])
+        elif t == "ExecutionSucceeded":
+            out.append([t, None, {"output": _js(d.get("output"))}])
+        elif t == "ExecutionFailed":
+            out.append([t, None, {"error": d.get("error"), "cause": _mc(d.get("cause"))}])
+        elif t == "LambdaFunctionScheduled":
+            out.append([t, None, {"input": _js(d.get("input")), "resource": d.get("resource")}])
+        elif t == "LambdaFunctionSucceeded":
+            out.append([t, None, {"output": _js(d.get("output"))}])
+        elif t == "LambdaFunctionFailed":
+            out.append([t, None, {"error": d.get("error"), "cause": d.get("cause")}])
+        elif t in ("MapIterationStarted", "MapIterationFailed", "MapIterationSucceeded"):
+            out.append([t, d.get("name"), {"index": d.get("index")}])
+        elif t == "MapStateStarted":
+            out.append([t, None, {"length": d.get("length")}])
+        elif t.endswith("StateStarted") or t.endswith("StateFailed"):
+            out.append([t, None, {}])
+        else:
+            out.append([t, d.get("name"), {k: v for k, v in d.items() if k != "name"}])
+    return out
+
+
+def model_events(m):
+    """the model's `history` in the same form"""
+    out = []
+    for t, name, d in m.get("history", []):
+        d = mask_cause(d) if isinstance(d, dict) else d
+        if t == "ExecutionFailed":
+            d = dict(d, cause=_mc(d.get("cause")))
+        out.append([t, name, d])
+    return out
+
+
+def numbering_problems(history):
+    """C09's first clause on the engine's history: ids are 1..n, previousEventId = id - 1"""
+    bad = [[h.get("id"), h.get("previousEventId")] for i, h in enumerate(history or [])
+           if h.get("id") != i + 1 or h.get("previousEventId") != i]
+    return [{"what": "event ids are not 1..n with previousEventId = id - 1", "ids": bad[:4]}] if bad else []
+
+
+def state_events(history):
+    """the state events only, in the short form ["in" | "out", name, data]"""
+    out = []
+    for t, name, d in history_events(history):
+        if t.endswith("StateEntered"):
+            out.append(["in", name, d["input"]])
+        elif t.endswith("StateExited"):
+            out.append(["out", name, d["output"]])
     return out
 
 
@@ -179,44 +242,81 @@ def fanout_names(machine):
     return names
 
 
+FANFAIL_KINDS = ("ExecutionStarted", "ExecutionSucceeded", "ExecutionFailed", "LambdaFunctionSucceeded")
+
+
 def compare_history(machine, m, history, n_requests):
-    """The engine's history against the log of `Asl.run` (`m`: the model's outcome).  Returns (mode, problems):
-      sequence  no Parallel / Map state was entered: the sequences of (in/out, name, data) are equal;
+    """The engine's complete history against the `history` of `Asl.run` (`m`: the model's outcome).
+    Returns (mode, problems, number of engine events compared):
+      sequence  no Parallel / Map state was entered: the sequences of [type, name, detail] are equal;
       multiset  fan-outs, none of which failed: the multisets are equal (the interleaving of branches is the schedule's);
-      fanfail   some fan-out attempt failed (which siblings got how far is the schedule's): every `out` event of the
-                engine is one of the model's (the model runs every branch to its end); `in` events and the request
-                count are not compared;
+      fanfail   some fan-out attempt failed (which siblings got how far is the schedule's): the engine's ExecutionStarted /
+                ExecutionSucceeded / ExecutionFailed, `…StateExited` and LambdaFunctionSucceeded events are among the
+                model's (the model runs every branch to its end); nothing else is compared;
       skipped   the model ran out of fuel / does not support the machine / several branches of a fan-out failed.
-    In the first two modes the number of task requests the workers saw equals the model's `requests`."""
+    In every compared mode the ids are 1..n with previousEventId = id - 1; in the first two the number of task requests
+    the workers saw equals the model's `requests`.  `…Aborted` events are left out everywhere."""
     import collections
     from common import cj
     if m.get("status") not in ("SUCCEEDED", "FAILED") or m.get("multiFail"):
-        return "skipped", []
-    mine = [[k, n, mask_cause(d)] for k, n, d in m.get("log", [])]
-    theirs = state_events(history)
+        return "skipped", [], 0
+    mine = model_events(m)
+    theirs = history_events(history)
     fans = fanout_names(machine)
-    probs = []
+    probs = numbering_problems(history)
     if m.get("fanFail"):
-        have = collections.Counter(cj(e) for e in mine if e[0] == "out")
-        extra = collections.Counter(cj(e) for e in theirs if e[0] == "out") - have
+        keep = lambda e: e[0] in FANFAIL_KINDS or e[0].endswith("StateExited")
+        have = collections.Counter(cj(e) for e in mine if keep(e))
+        sel = [e for e in theirs if keep(e)]
+        extra = collections.Counter(cj(e) for e in sel) - have
         if extra:
-            probs.append({"what": "StateExited events the reference semantics does not have", "events": sorted(extra.elements())[:4]})
-        return "fanfail", probs
-    if any(e[0] == "in" and e[1] in fans for e in mine + theirs):
+            probs.append({"what": "events the reference semantics does not have", "events": sorted(extra.elements())[:4]})
+        return "fanfail", probs, len(sel)
+    if any(e[0].endswith("StateEntered") and e[1] in fans for e in mine + theirs):
         mode = "multiset"
         a, b = collections.Counter(cj(e) for e in theirs), collections.Counter(cj(e) for e in mine)
         if a != b:
-            probs.append({"what": "state events differ as multisets", "engine_only": sorted((a - b).elements())[:4],
+            probs.append({"what": "histories differ as multisets", "engine_only": sorted((a - b).elements())[:4],
                           "model_only": sorted((b - a).elements())[:4]})
+        elif theirs and (theirs[0][0] != "ExecutionStarted" or not theirs[-1][0].startswith("Execution")):
+            probs.append({"what": "ExecutionStarted is not first / the terminal event is not last", "first": theirs[0], "last": theirs[-1]})
     else:
         mode = "sequence"
         if cj(theirs) != cj(mine):
             i = next((i for i, (x, y) in enumerate(zip(theirs, mine)) if cj(x) != cj(y)), min(len(theirs), len(mine)))
-            probs.append({"what": "state events differ as sequences", "at": i, "engine": theirs[i:i + 2], "model": mine[i:i + 2],
+            probs.append({"what": "histories differ as sequences", "at": i, "engine": theirs[i:i + 2], "model": mine[i:i + 2],
                           "lengths": [len(theirs), len(mine)]})
     if n_requests != m.get("requests"):
         probs.append({"what": "number of task requests", "engine": n_requests, "model": m.get("requests")})
-    return mode, probs
+    return mode, probs, len(theirs)
+
+
+def compare_notifications(m, details, data):
+    """The status notifications of the execution (the `detail` of each, in order of publication) against the model's
+    `notifications`: the same statuses in the same order — RUNNING carrying the execution's input, then the terminal
+    status carrying the output, or the error name with a cause exactly when the Error Output has one."""
+    from common import cj
+    if m.get("status") not in ("SUCCEEDED", "FAILED") or m.get("multiFail"):
+        return "skipped", []
+    want = m.get("notifications", [])
+    probs = []
+    if [d.get("status") for d in details] != [w[0] for w in want]:
+        return "compared", [{"what": "statuses", "engine": [d.get("status") for d in details], "model": [w[0] for w in want]}]
+    for d, (st, payload) in zip(details, want):
+        if st == "RUNNING":
+            if cj(_js(d.get("input"))) != cj(mask_cause(data)) or d.get("output") is not None:
+                probs.append({"what": "RUNNING carries the input and no output", "engine": {"input": d.get("input"), "output": d.get("output")}})
+        elif st == "SUCCEEDED":
+            if d.get("output") is None or cj(_js(d.get("output"))) != cj(mask_cause(payload)) or d.get("error") is not None:
+                probs.append({"what": "SUCCEEDED carries the output and no error", "engine": {"output": d.get("output"), "error": d.get("error")},
+                              "model": payload})
+        else:
+            if (d.get("error") != payload.get("Error") or (d.get("cause") is not None) != ("Cause" in payload)
+                    or d.get("output") is not None):
+                probs.append({"what": "FAILED carries the error name (and a cause iff there is one) and no output",
+                              "engine": {"error": d.get("error"), "cause": _mc(d.get("cause")), "output": d.get("output")},
+                              "model": mask_cause(payload)})
+    return "compared", probs
 
 
 def run_case(machine, data, plans, policy="canonical", rng=None, sm_type="STANDARD", max_steps=4000,
